@@ -165,6 +165,7 @@ def main(argv=None):
     ap.add_argument('--only', default=None, help='substring filter on obligation names (debugging)')
     ap.add_argument('--jobs', type=int, default=int(os.environ.get('VF_JOBS', '16')))
     a = ap.parse_args(argv)
+    _ONLY[0] = a.only
     seed = int(os.environ.get('VERIF_SEED', '0') or 0)
 
     if a.prop == 'replay':
@@ -467,6 +468,9 @@ def do_replay(path, seed):
     return 0
 
 
+_ONLY = [None]     # set by main() when the run is filtered with --only
+
+
 def write_evidence(prop, tier, seed, spec, records, st_results, t_start, violations, harness_error):
     os.makedirs(EVID, exist_ok=True)
     paths = sum(r.get('stats', {}).get('paths', 0) for r in records)
@@ -537,7 +541,9 @@ def write_evidence(prop, tier, seed, spec, records, st_results, t_start, violati
                                                     'entry points named by the obligations')
     except Exception as e:  # never let bookkeeping mask a verdict
         ev['coverage']['functions_encoded_error'] = str(e)
-    with open(os.path.join(EVID, f'{prop}.json'), 'w') as f:
+    # a filtered run (--only, a debugging aid) covers part of the property: its evidence goes to a side file and never
+    # replaces the evidence of the registered command
+    with open(os.path.join(EVID, f'{prop}.json' if not _ONLY[0] else f'{prop}.partial.json'), 'w') as f:
         json.dump(ev, f, indent=1, default=str)
 
 
